@@ -206,10 +206,13 @@ mod imp {
                 (l.clone(), l, svs::FMT_BEVE, 0)
             }
             TrailerVerified | TrailerVerifiedAsync => {
+                // trailer lengths from none at all (the digest is then known out of band; the verifier is still the gate)
+                // through shorter and longer than the digest itself
+                let tl = [8usize, 0, 1, 8, 3, 16, 64, 0][((seed >> 3) % 8) as usize];
                 let pl = svs::payload(seed, n, seed & 1 == 1);
                 let mut l = pl.clone();
-                l.extend_from_slice(&Fnv::of(&pl).to_le_bytes());
-                (l, pl, svs::FMT_RAW, 8)
+                l.extend_from_slice(&trailer_bytes(Fnv::of(&pl), tl));
+                (l, pl, svs::FMT_RAW, tl)
             }
         };
         let wire = if zstd { svs::zstd_compress(&logical) } else { logical.clone() };
@@ -332,9 +335,18 @@ mod imp {
         trunc(&e.to_string(), 200)
     }
 
+    /// The trailer a stream of digest `d` carries when its trailer is `tl` bytes long.
+    fn trailer_bytes(d: u64, tl: usize) -> Vec<u8> {
+        (0..tl).map(|i| d.to_le_bytes()[i % 8] ^ (i / 8) as u8).collect()
+    }
+
+    /// How often a caller-supplied trailer verifier was consulted (process-wide).
+    static VERIFY_CALLS: std::sync::atomic::AtomicU64 = std::sync::atomic::AtomicU64::new(0);
+
     fn verify_trailer(reject: bool) -> impl FnOnce(Fnv, &[u8]) -> Result<(), RepeError> {
         move |d: Fnv, trailer: &[u8]| {
-            if reject || d.0.to_le_bytes() != trailer {
+            VERIFY_CALLS.fetch_add(1, std::sync::atomic::Ordering::SeqCst);
+            if reject || trailer_bytes(d.0, trailer.len()) != trailer {
                 Err(RepeError::Io(std::io::Error::new(std::io::ErrorKind::InvalidData, "digest trailer rejected")))
             } else {
                 Ok(())
@@ -609,7 +621,9 @@ mod imp {
         let dest = dir.join(DEST);
         let reject = sc.fault == Fault::VerifyReject;
         let trailer_len = if sc.fault == Fault::TrailerTooLong { c.logical.len() + 1 + (sc.seed % 5) as usize } else { c.trailer_len };
+        let verify_calls_before = VERIFY_CALLS.load(std::sync::atomic::Ordering::SeqCst);
         let ran = run_pull(rt, sc.p, addr, dest.clone(), reject, trailer_len, Fnv::of(&c.logical));
+        let verifier_consulted = VERIFY_CALLS.load(std::sync::atomic::Ordering::SeqCst) > verify_calls_before;
         let after = svs::snapshot(&dir);
         let stats = fake_stats();
         let _ = std::fs::remove_dir_all(&dir);
@@ -692,6 +706,14 @@ mod imp {
                 svs::describe_snapshot(&after)
             )
         };
+        if sc.p.trailer() && res.is_ok() {
+            // published only after it passed the caller-supplied verification: an Ok that never asked the verifier did not
+            if verifier_consulted {
+                acc.count(if c.trailer_len == 0 { "trailer_verified_publishes_that_consulted_the_verifier_empty_trailer" } else { "trailer_verified_publishes_that_consulted_the_verifier" }, 1);
+            } else {
+                acc.viol.push((format!("C10:published-without-verification:{pn}"), detail(&format!("Ok although the caller's verifier was never consulted (trailer_len {})", c.trailer_len)), replay.clone()));
+            }
+        }
         match (&res, now) {
             (Ok(_), DestNow::Complete) if !must_fail || either => acc.count("published_complete_content", 1),
             (Ok(_), DestNow::Complete) => acc.viol.push((format!("C10:published-after-fault:{pn}:{class}"), detail("a failing pull published the file"), replay.clone())),
@@ -735,8 +757,10 @@ mod imp {
         let mut scns = vec![];
         for p in FILE_PULLERS.iter().chain(DECODE_PULLERS.iter()).copied() {
             for &zstd in p.compressions() {
-                for &(n, chunk) in &layouts {
-                    let seed = rng.below(1 << 40);
+                for (li, &(n, chunk)) in layouts.iter().enumerate() {
+                    // bits 3..5 of the seed pick the trailer length (content_for): rotate so every length class, the empty
+                    // trailer included, meets every puller x compression within a few layouts
+                    let seed = (rng.below(1 << 40) & !0x38) | ((((li + zstd as usize * 3 + args.seed as usize) % 8) as u64) << 3);
                     let c = content_for(p, zstd, seed, n);
                     let faults = faults_for(p, zstd, c.wire.len(), chunk);
                     for fault in faults {
